@@ -10,6 +10,11 @@ cd $W
 cp $SRC/demo/demo.rs tests_demo.rs 2>/dev/null
 mkdir -p tests; cp $SRC/demo/*.rs tests/ 2>/dev/null
 FEATS=""; grep -q "serde" $SRC/demo/README.md 2>/dev/null && FEATS="--features serde"
+# demonstrations that need another build say so in their README (release-only changes, the no-getrandom back end)
+grep -q -- "--no-default-features" $SRC/demo/README.md 2>/dev/null && FEATS="--no-default-features --features std"
+grep -q -- "--release" $SRC/demo/README.md 2>/dev/null && FEATS="$FEATS --release"
+FEATS="$FEATS ${DEMO_FLAGS:-}"
+echo "== demo flags: $FEATS"
 echo "== demo WITHOUT the change"; cargo test --offline $FEATS --test demo 2>&1 | grep -E "^test result|error(\[|:)" | head -3
 git apply $SRC/patch.diff || { echo "PATCH DOES NOT APPLY"; exit 1; }
 # two pinned tests (rng::xoshiro256::fill_bytes, rng::chacha::tests::test_fill_bytes) seed from OS entropy and fail ~3% of runs each on the UNCHANGED tree
